@@ -59,27 +59,28 @@ Definition choice (ps : list Q) (u : Q) : nat := choose ps 0 u O.
 Definition NOT_STARTED : Z := 100.
 Definition SUCCEEDED : Z := 200.
 Definition FAILED : Z := 300.
-Record kc := { k_cur : Z; k_next : Z; k_done : bool }.
+(* k_prog: progress within the current stage (KillChainStageProgress: PENDING 0, IN_PROGRESS 1, FINISHED 2) *)
+Record kc := { k_cur : Z; k_next : Z; k_done : bool; k_prog : Z }.
 Inductive kop := KStart | KProgress | KFail | KOutcome (repeat_chain : bool) | KReturn (succeeded repeat_stages : bool).
 
 (* last: the final stage of the chain (PAYLOAD = 6 for TAP001, EXPLOIT = 5 for TAP003) *)
 Definition k_step (last : Z) (s : kc) (o : kop) : kc :=
   match o with
-  | KStart => if k_cur s =? NOT_STARTED then {| k_cur := 1; k_next := 2; k_done := k_done s |} else s
+  | KStart => if k_cur s =? NOT_STARTED then {| k_cur := 1; k_next := 2; k_done := k_done s; k_prog := k_prog s |} else s
   | KProgress =>
-      if k_next s =? last then {| k_cur := k_cur s + 1; k_next := SUCCEEDED; k_done := k_done s |}
+      if k_next s =? last then {| k_cur := k_cur s + 1; k_next := SUCCEEDED; k_done := k_done s; k_prog := 0 |}
       else let c := k_next s in
-           {| k_cur := c; k_next := if c =? SUCCEEDED then NOT_STARTED else c + 1; k_done := k_done s |}
-  | KFail => {| k_cur := FAILED; k_next := k_next s; k_done := k_done s |}
+           {| k_cur := c; k_next := if c =? SUCCEEDED then NOT_STARTED else c + 1; k_done := k_done s; k_prog := 0 |}
+  | KFail => {| k_cur := FAILED; k_next := k_next s; k_done := k_done s; k_prog := k_prog s |}
   | KOutcome rep =>
       if (k_cur s =? SUCCEEDED) || (k_cur s =? FAILED) then
         if k_done s then s
-        else if rep then {| k_cur := NOT_STARTED; k_next := 1; k_done := false |}
-        else {| k_cur := k_cur s; k_next := k_next s; k_done := true |}
+        else if rep then {| k_cur := NOT_STARTED; k_next := 1; k_done := false; k_prog := 0 |}      (* the first stage starts from its beginning *)
+        else {| k_cur := k_cur s; k_next := k_next s; k_done := true; k_prog := k_prog s |}
       else s
   (* _tap_return_handler: the response to the agent's previous request; anything but "success" (failure, unreachable,
      pending) fails the chain unless stages are repeated, in which case the stage is held *)
-  | KReturn ok rs => if ok || rs then s else {| k_cur := FAILED; k_next := k_next s; k_done := k_done s |}
+  | KReturn ok rs => if ok || rs then s else {| k_cur := FAILED; k_next := k_next s; k_done := k_done s; k_prog := k_prog s |}
   end.
 
 (* ---- drivers -------------------------------------------------------------------------------------------------------------- *)
